@@ -11,6 +11,7 @@ import (
 	"math/rand/v2"
 	"net/netip"
 	"strconv"
+	"strings"
 	"time"
 
 	"github.com/scionproto/scion/pkg/addr"
@@ -331,6 +332,29 @@ func init() {
 				return p, func(reply []byte) ([]byte, string) { return reply, "" }
 			}}
 		okIP := c09Run(r, ipT, c09Cases(r, rng, d, "ip"), rng, tgt)
+
+		// ---- the same from a sender bound to the NTP port itself (a peer daemon's socket): the verdict
+		// on a request depends on the payload, not on the source port
+		if okIP && (r.Only() == "" || strings.HasPrefix(r.Only(), "ip123-")) {
+			if uc123, err := peer.NewUDPClientAt(netip.AddrPortFrom(cli, 123)); err == nil {
+				t123 := &c09Transport{name: "ip(source port 123)", dst: netip.AddrPortFrom(srv, 123), client: uc123, wrap: ipT.wrap}
+				var cs []*c09Case
+				for fb := 0; fb < 256; fb++ {
+					b := make([]byte, 48)
+					for i := 1; i < 40; i++ {
+						b[i] = byte(rng.IntN(256))
+					}
+					b[0] = byte(fb)
+					c := &c09Case{id: fmt.Sprintf("ip123-%d", fb), data: b, tx: peer.UniqueTime64(), expect: c09Expect(b, false), class: "len=48,from-port-123"}
+					binary.BigEndian.PutUint64(b[40:], c.tx)
+					cs = append(cs, c)
+				}
+				c09Run(r, t123, cs, rng, tgt)
+				uc123.Close()
+			} else {
+				r.Class("source-port-123-not-available")
+			}
+		}
 
 		// ---- replies fed back as requests get no answer
 		if okIP {
